@@ -49,7 +49,7 @@ RULE = ("random small screens (1-7 plates, arity 1-3, 1-2 samples, few names/dos
         "with id gaps, an empty chunk file first, a plate with 70 wells, and 12 cases repeated in a second interpreter with another PYTHONHASHSEED. "
         "Non-trivial: >=2 candidates, n_chunks>=2, and either a batch that conditions the plates or >=2 allowed plates with a tie or -inf.")
 
-SCORE_POOL = [float("-inf"), 0.0, 0.0, 0.5, -2.0, 1.0, 3.25, -2.0, 1e300, 1e-3]
+SCORE_POOL = [float("-inf"), 0.0, 0.0, 0.5, -2.0, 1.0, 3.25, -2.0, 1e300, 1e-3, 1.000004, 1.0000000000000002, 1e-9, -0.0]
 
 
 # ------------------------------------------------------------------ tokens
@@ -57,6 +57,10 @@ def score_tok(x):
     x = float(x)
     if x == float("-inf"):
         return "ninf"
+    if x == float("inf"):
+        return "pinf"          # never produced by the unchanged code (unfilled slots are 0.0): shows up as a tie, the oracles decide
+    if x != x:
+        return "nan"
     n, d = x.as_integer_ratio()
     return "%d/%d" % (n, d)
 
@@ -951,6 +955,39 @@ def crafted_cases():
     return out
 
 
+def near_tie_cases():
+    """class near-ties (every run): two allowed candidates whose scores are nearly equal but UNEQUAL (1 ulp, 1e-12, 1e-9, 4e-6 relative, 1e-9
+    absolute next to 0, negative values), in both orders of plate id, plus exact ties and -0.0 / 0.0; and exact ties between an allowed and a
+    NOT allowed plate (the not allowed one stored first).  The oracle is exact: no allowed plate may have a strictly lower score."""
+    import math
+    C = ("control", 0.0)
+    a, b, c = ("a", 1.0), ("b", 1.0), ("c", 1.0)
+    rows = [("p0", "s0", a, b), ("p1", "s0", a, c), ("p2", "s0", b, c), ("p3", "s0", C, c), ("p4", "s0", c, a), ("p5", "s0", b, a)]
+    maskp = {"p%d" % i: False for i in range(6)}
+    raw = dict(ctrl="control", arity=2, tnames=[[r[2][0], r[3][0]] for r in rows], tdoses=[[r[2][1], r[3][1]] for r in rows],
+               snames=[r[1] for r in rows], pnames=[r[0] for r in rows], obs=[0.5] * len(rows), mask=[maskp[r[0]] for r in rows], tmap=None, smap=None)
+    pairs = [("1ulp", 1.0, math.nextafter(1.0, 2.0)), ("rel-1e-12", 1.0, 1.0 + 1e-12), ("rel-1e-9", 1.0, 1.0 + 1e-9), ("rel-4e-6", 1.0, 1.000004),
+             ("abs-1e-9-at-0", 0.0, 1e-9), ("abs-1e-9-below-0", -1e-9, 0.0), ("neg-1ulp", -2.0, math.nextafter(-2.0, 0.0)),
+             ("exact-tie", 1.0, 1.0), ("neg-zero", -0.0, 0.0), ("big-rel-1e-9", 1e300, 1e300 * (1 + 1e-9))]
+    out = []
+    for name, lo, hi in pairs:
+        for order in (0, 1):
+            # order 0: the LOWER plate id carries the HIGHER score
+            table = {0: max(hi, 1.0) + 5.0, 1: (hi if order == 0 else lo), 2: max(hi, 1.0) + 5.0, 3: max(hi, 1.0) + 7.0, 4: (lo if order == 0 else hi),
+                     5: max(hi, 1.0) + 5.0}
+            out.append((name, {"raw": raw, "batch": [3], "table": {str(k): enc_score(v) for k, v in table.items()}, "total": True, "allowed": [1, 4, 5],
+                               "ns": [1, 2, 3], "all_orders_upto": 3, "n_orders": 1, "cli": order == 0, "shipped": False,
+                               "seed": 7100 + len(out), "stale": True, "edges": False}))
+    # exact tie between a NOT allowed plate (lower id, stored first) and an allowed one; and a not allowed plate strictly better
+    for name, table, allowed in (("tie-with-not-allowed", {0: 9.0, 1: 9.0, 2: 1.0, 3: 9.0, 4: 1.0, 5: 9.0}, [4, 5]),
+                                 ("tie-with-not-allowed", {0: 1.0, 1: 1.0, 2: 9.0, 3: 9.0, 4: 9.0, 5: 1.0}, [5]),
+                                 ("not-allowed-strictly-better", {0: 0.5, 1: 9.0, 2: 0.5, 3: 9.0, 4: 1.0, 5: 9.0}, [1, 4])):
+        out.append((name, {"raw": raw, "batch": [3], "table": {str(k): enc_score(v) for k, v in table.items()}, "total": True, "allowed": allowed,
+                           "ns": [1, 2, 3], "all_orders_upto": 3, "n_orders": 1, "cli": True, "shipped": False, "seed": 7100 + len(out), "stale": True,
+                           "edges": False}))
+    return out
+
+
 def describe(res, case, cands):
     raw = case["raw"]
     res.count("plates.%d" % len(set(raw["pnames"])))
@@ -1023,6 +1060,11 @@ def run(ctx, res):
             res.count("class.crafted." + name)
             if name == "radix-neighbours":
                 res.count("class.size.packed-key-radix-neighbours")
+            describe(res, case, cands)
+        # ---- near ties, every run
+        for name, case in near_tie_cases():
+            cands = run_case(ctx, res, env, case, lines, expect, meta)
+            res.count("class.near-ties." + name)
             describe(res, case, cands)
         # ---- random cases
         rng = ctx.subrng("c06")
